@@ -135,7 +135,26 @@ def suite_build(ctx):
             g3 = np.array(sim.jtvec(wr), copy=True)
             g4 = np.array(sim.gradient, copy=True)
             m1 = float(sim.misfit)
+            # an unrelated data vector in between: the residual the survey
+            # holds, and J^T of the weighted residual, stay what they were
+            w2 = rng.standard_normal(r.shape) + 1j*rng.standard_normal(r.shape)
+            w2 *= np.nanmax(np.abs(wr))
+            _ = sim.jtvec(w2)
+            r5 = sim.data.residual.data.copy()
+            wr5 = np.where(fin, sim.data.residual.data*sim.data.weights.data,
+                           0)
+            g5 = np.array(sim.jtvec(wr5), copy=True)
         sc = np.max(np.abs(g))
+        if not np.array_equal(r5, r, equal_nan=True) or \
+                np.max(np.abs(g5-g)) > 1e-9*sc:
+            bad.append(('jtvec changes the stored residual', tag))
+            ctx.violation(
+                'jtvec-disturbs-residual',
+                f'world {tag}: after jtvec(w) with an unrelated data vector '
+                f'the stored residual differs from before by '
+                f'{np.nanmax(np.abs(r5-r))!r} and jtvec(weights*residual) '
+                f'from the misfit gradient by {np.max(np.abs(g5-g))/sc:.3g} '
+                f'(relative)', {'tag': repr(tag)})
         if (np.max(np.abs(g2-g)) > 1e-9*sc or np.max(np.abs(g3-g)) > 1e-9*sc or
                 np.max(np.abs(g4-g)) > 1e-12*sc or m1 != m0 or
                 np.max(np.abs(jv2-jv)) > 1e-9*np.max(np.abs(jv))):
